@@ -16,7 +16,8 @@ from sx import crypto_models as M
 PROPERTY = "C20"
 LEVEL = "model_checking"
 CODE = ["yowsup/env/env_android.py:AndroidYowsupEnv.getToken", "yowsup/common/http/warequest.py:WARequest.urlencode/urlencodeParams/encryptParams"]
-BOUNDS = {"quick": "[+ 3 country codes x 4 shapes of national number x {exists, code} request, 3 sends each] " 
+BOUNDS = {"quick": "[+ 3 selections from {android, custom}] " 
+                   "[+ 3 country codes x 4 shapes of national number x {exists, code} request, 3 sends each] " 
                    "[+ both encryptions of one request object; '%', 'a%', '&', '+' followed by 2 unconstrained ASCII characters] " 
                    "[+ stock and 4 derived environments (overriding classes / key / signature / all)] " 
                    "token: phone length 0..64 symbolic, contents abstract; two requests in one process with 1-2 symbolic digits each; parameter lists of 2-3 entries with any (also repeated) names; encode: one value of n<=2 unconstrained Unicode code points (0..0x10FFFF without surrogates), "
